@@ -165,8 +165,14 @@ def _cat_dict(prop, case, f):
 
 @pred("append-to-drill-partitioned-dataset-refused")
 def _drill_append(prop, case, f):
-    return (f.get("kind") == "append_raised" and f.get("exc") == "ValueError" and f.get("where") == "writer.py:write"
-            and f.get("msg", "").startswith("Requested file scheme is drill") and f.get("scheme") == "drill" and bool(f.get("partition_on")))
+    # write(append=True) accepts an existing dataset only when its scheme is detected as hive / flat / empty and its partition
+    # columns are named like partition_on; a drill dataset is detected as 'drill' (first message) or - few files, '=' in a key -
+    # as something else whose columns are dir0.. (second message): either way the append is refused
+    if not (f.get("kind") == "append_raised" and f.get("exc") == "ValueError" and f.get("where") == "writer.py:write"
+            and f.get("scheme") == "drill" and bool(f.get("partition_on"))):
+        return False
+    m = f.get("msg", "")
+    return m.startswith("Requested file scheme is drill") or m.startswith("When appending, partitioning columns must match")
 
 
 @pred("append-text-to-column-inferred-as-bytes-refused")
@@ -179,14 +185,23 @@ def _bytes_infer(prop, case, f):
 @pred("partition-chunk-with-all-null-keys-raises")
 def _allnull_keys(prop, case, f):
     # pandas groupby over >= 2 keys raises IndexError when every key of the chunk is null; fastparquet lets it propagate
-    return (f.get("kind") in ("append_raised", "write_raised") and f.get("exc") == "IndexError"
-            and f.get("where") == "writer.py:partition_on_columns" and "non-empty take from an empty axes" in f.get("msg", ""))
+    if not (f.get("kind") in ("append_raised", "write_raised") and f.get("exc") == "IndexError" and f.get("where") == "writer.py:partition_on_columns"):
+        return False
+    m = f.get("msg", "")
+    if "non-empty take from an empty axes" in m:
+        return True
+    # with a categorical key pandas fails differently ("index -3 is out of bounds for axis 0 with size 2"); the driver states the premise
+    return "is out of bounds for axis 0" in m and f.get("batch_rows_with_all_keys") == 0 and len(f.get("partition_on") or []) >= 2
 
 
 @pred("dataset-emptied-by-removal-forgets-partitioning")
 def _emptied(prop, case, f):
     # partition columns are derived from the row groups' paths; with no row group left the handle has no partition columns,
     # so append / overwrite / write_row_groups with the original columns are refused
+    if prop == "C07":
+        # the same state reached by a first write whose every row had a missing partition key (such rows are dropped): no data file
+        return (f.get("kind") == "append_raised" and f.get("exc") == "ValueError" and f.get("existing_data_files") == 0 and bool(f.get("partition_on"))
+                and f.get("msg", "").startswith("When appending, partitioning columns must match"))
     if f.get("kind") != "operation_raised" or f.get("exc") != "ValueError" or f.get("row_groups_before") != 0 or not f.get("nparts"):
         return False
     m = f.get("msg", "")
